@@ -1,3 +1,5 @@
+import Mathlib.Tactic.NormNum
+import Mathlib.Tactic.Linarith
 import ElexModel.Core.Boot
 import ElexModel.Lemmas.Num
 import ElexModel.Gen.C07
@@ -198,5 +200,42 @@ theorem bridge_interval_shape :
     Gen.C07.format_calls = ["self._format_called_contests(lhs_called_contests, rhs_called_contests, contests, 1, 0, -1)",
       "self._format_called_contests(stop_model_call, [], contests, True, None, False)"] ∧
     Gen.C07.state_written = ["self.called_contests", "self.stop_model_call"] := ⟨rfl, rfl, rfl⟩
+
+end ElexModel.Boot
+
+/-! ### C07 stated directly about the regenerated source terms -/
+
+namespace ElexModel.Boot
+open ElexModel
+
+/-- **C07 on the source**: `_adjust_called_contests` with the source's thresholds puts a left call at `≥ +0.005`, a right call at
+    `≤ −0.005` and leaves an uncalled contest alone -/
+theorem source_adjust_called (pred : ℚ) :
+    (5 : ℚ) / 1000 ≤ Gen.C07.adjust_called pred true false Gen.C07.lhs_called_threshold Gen.C07.rhs_called_threshold ∧
+    Gen.C07.adjust_called pred false true Gen.C07.lhs_called_threshold Gen.C07.rhs_called_threshold ≤ -5 / 1000 ∧
+    Gen.C07.adjust_called pred false false Gen.C07.lhs_called_threshold Gen.C07.rhs_called_threshold = pred := by
+  have h1 := bridge_adjust .lhs pred
+  have h2 := bridge_adjust .rhs pred
+  have h3 := bridge_adjust .none pred
+  simp only [decide_true, decide_false, reduceCtorEq] at h1 h2 h3
+  refine ⟨?_, ?_, ?_⟩
+  · rw [← h1]; exact called_lhs_pred pred
+  · rw [← h2]; exact called_rhs_pred pred
+  · rw [← h3]; rfl
+
+/-- **C07 on the source**: the race-call block of `get_aggregate_prediction_intervals` — called left and not stop-listed: the lower
+    bound is not negative; called right and not stop-listed: the upper bound is not positive; stop-listed and uncalled: the interval
+    contains zero; neither: nothing changes -/
+theorem source_overrides (lo hi : ℚ) :
+    0 ≤ Gen.C07.override_lower lo hi true false false Gen.C07.lhs_called_threshold Gen.C07.rhs_called_threshold ∧
+    Gen.C07.override_upper lo hi false true false Gen.C07.lhs_called_threshold Gen.C07.rhs_called_threshold ≤ 0 ∧
+    (Gen.C07.override_lower lo hi false false true Gen.C07.lhs_called_threshold Gen.C07.rhs_called_threshold ≤ 0 ∧
+     0 ≤ Gen.C07.override_upper lo hi false false true Gen.C07.lhs_called_threshold Gen.C07.rhs_called_threshold) ∧
+    (Gen.C07.override_lower lo hi false false false Gen.C07.lhs_called_threshold Gen.C07.rhs_called_threshold = lo ∧
+     Gen.C07.override_upper lo hi false false false Gen.C07.lhs_called_threshold Gen.C07.rhs_called_threshold = hi) := by
+  rw [bridge_thresholds.1, bridge_thresholds.2]
+  unfold Gen.C07.override_lower Gen.C07.override_upper lhsThreshold rhsThreshold
+  refine ⟨?_, ?_, ⟨?_, ?_⟩, ⟨?_, ?_⟩⟩ <;> simp only [Bool.and_true, Bool.and_false, Bool.false_eq_true, if_false, gt_iff_lt] <;>
+    split_ifs <;> simp_all <;> linarith
 
 end ElexModel.Boot
